@@ -249,6 +249,21 @@ Theorem C13_table_constants_ok : tparams_ok tblp.
 Proof. exact tblp_ok. Qed.
 Print Assumptions C13_table_constants_ok.
 
+(* A.3b  block_no_panic — PARTIAL: on every block the writer produces (strictly increasing keys),
+   no movement sequence ever puts the iterator into an error state: no Corrupted, no place where
+   Go would index out of range.
+   FULL STATEMENT (block_no_panic for arbitrary bytes: "decoding never panics") is FALSE for the
+   code as it is: without checksum verification a single altered byte in the restart array or in
+   an entry header makes block.entry / block.seek slice out of range (reproduced on the
+   implementation, see the report); with verification the altered block never reaches the
+   decoder (C.1). *)
+Theorem C13_block_no_panic_partial : forall c ri kvs,
+  comparer_ok c -> (1 <= ri)%N -> (lenN (block_build ri kvs) < 2 ^ 32)%N -> sorted c kvs ->
+  exists b, read_block (block_build ri kvs) = Ok b /\
+    forall ops, bi_err (bi_run_final c (new_block_iter c b None false) ops) = None.
+Proof. exact block_no_panic_wf. Qed.
+Print Assumptions C13_block_no_panic_partial.
+
 (* A.4  the same for the SLICED block iterator newBlockIter(b, &util.Range{start, limit}, false):
    it refines the cursor over the pairs with start <= key < limit (each bound optional), for
    every non-empty block.  (On an EMPTY block a slice with a Start bound makes block.seek read
